@@ -732,8 +732,8 @@ Proof.
   - (* LWorkEnd *)
     destruct (str_mem id (sy_running s)) eqn:M.
     + inv H. apply (R_same_h s); auto. intros O. apply (Owed_frame s); auto. apply (ow_idle s O).
-    + destruct o; try discriminate. destruct (List.find _ (sy_accepted s)) eqn:F; inv H.
-      apply (R_same_h s); auto. intros O. apply (Owed_frame s); auto. apply (ow_idle s O).
+    + destruct o; try discriminate; (destruct (List.find _ (sy_accepted s)) eqn:F; inv H;
+      apply (R_same_h s); auto; intros O; apply (Owed_frame s); auto; apply (ow_idle s O)).
   - (* LDump *)
     destruct (_ && _); inv H. exact HR.
   - (* LFire *)
@@ -962,7 +962,7 @@ Proof.
     destruct (gtime_eqb now (sy_now s) && task_eqb snap t) eqn:E; inv H. aux_same H.
   - destruct (str_mem id (sy_running s)) eqn:M.
     + inv H. aux_same H.
-    + destruct o; try discriminate. destruct (List.find _ (sy_accepted s)) eqn:F; inv H. aux_same H.
+    + destruct o; try discriminate; (destruct (List.find _ (sy_accepted s)) eqn:F; inv H; aux_same M).
   - destruct (_ && _); inv H. exact A.
   - destruct (sy_pc s) eqn:P; try discriminate. destruct (tm_pending _) eqn:Pe; inv H. aux_same P.
   - discriminate.
